@@ -13,7 +13,7 @@ PROPERTIES = {
     ),
     "C13": dict(
         modules=["contracts.c13_ws"],
-        bounded=[_bounded.lazy("contracts.e2e_variables", "bounded_method_locals")],
+        bounded=[_bounded.lazy("contracts.e2e_plugins", "bounded_plugins"), _bounded.lazy("contracts.e2e_variables", "bounded_method_locals")],
         explanation="frame handler outcome table (complete: loop-free), senders, and the subscription iterator with a "
                     "prefix invariant over the server's frame sequence",
         assumptions=["interoperability with a live websockets server beyond the call signature is outside this family"],
